@@ -102,6 +102,8 @@ def as_implemented(b, api, loc):
             return "(alt.Decompose)", "as-implemented|float32-widened"
         if api.startswith("pretty.") and d["fk"] == ["ptr", "float"]:
             return "(pretty via alt.Decompose)", "as-implemented|float32-widened"
+    if w == "as-implemented:bytes-as-array" and (api.startswith("alt.Decompose") or api.startswith("pretty.")):
+        return "(decompose family)", "as-implemented|bytes-as-array"
     if w == "as-implemented:sen-bare-literal":
         return api, "as-implemented|sen-bare-literal"
     return api, loc
